@@ -8,6 +8,7 @@ tuples of ids (`None` = Python None), exactly the tokens of `Driver/Tree.lean: p
 """
 from __future__ import annotations
 
+import hashlib
 import io
 import itertools
 
@@ -24,6 +25,9 @@ FIX = core.REPO / "tests" / "psd_files"
 LIMIT = 150          # recursion budget of the model (never reached by the trees generated here)
 BOGUS = 999999       # id standing for a non-layer object
 INSERTING = ("append", "extend", "insert", "setitem", "setslice")
+# attribute setters that are outside the modelled state (model operation `attr x`: nothing but the
+# attribute changes - no list, pointer, dirty flag or cached box)
+ATTR_OPS = ("rename", "clip", "opacity")
 
 
 # ------------------------------------------------------------------------------------------
@@ -35,6 +39,7 @@ class World:
         self.objs: list = []          # id -> object (None = placeholder of an object lost to an exception)
         self._ids: dict = {}
         self.last_frames: tuple = ()  # function names of the traceback of the last exception
+        self.origin: dict = {}        # layer id -> (mode, depth) of the document it was made for (None: made without one)
 
     def reg(self, o) -> int:
         if o is not None and id(o) in self._ids:
@@ -42,6 +47,12 @@ class World:
         self.objs.append(o)
         if o is not None:
             self._ids[id(o)] = len(self.objs) - 1
+            if isinstance(o, Layer):
+                d = getattr(o, "_psd", None)
+                try:
+                    self.origin[len(self.objs) - 1] = None if d is None else (d.pil_mode, d.depth)
+                except Exception:  # noqa
+                    pass
         return len(self.objs) - 1
 
     def reg_tree(self, g):
@@ -168,6 +179,40 @@ def build(recipe) -> World:
         g = Group.new("g", parent=A)
         w.reg_tree(A)
         w.reg(_px(A, mode, "fresh", 3, 3))
+    elif shape == "dup":
+        # names shared by a group, its descendants and layers elsewhere (name search: C10 I4)
+        A.append(_px(A, mode, "n", 0, 0))
+        g1 = Group.new("n", parent=A)
+        g1.append(_px(A, mode, "n", 1, 2))
+        g2 = Group.new("n", parent=g1)
+        g2.append(_px(A, mode, "m", 4, 4, 3, 3))
+        g2.append(_px(A, mode, "n", 2, 1))
+        g3 = Group.new("m", parent=A)
+        g3.append(_px(A, mode, "m", 5, 0))
+        w.reg_tree(A)
+        w.reg(_px(A, mode, "n", 3, 0))
+        w.reg(Group.new("m"))
+    elif shape == "board":
+        # a document with artboards (API-built, typed by the reader: saved and reopened once)
+        import docbuild
+        A.append(_px(A, mode, "x1", 0, 0))
+        b1 = Group.new("board1", parent=A)
+        b1.append(_px(A, mode, "x2", 1, 2))
+        g2 = Group.new("g2", parent=b1)
+        g2.append(_px(A, mode, "x3", 4, 4, 3, 3))
+        b1.append(_px(A, mode, "c1", 2, 1, clip=True))
+        b2 = Group.new("board2", parent=A)
+        A.append(_px(A, mode, "x4", 5, 0))
+        docbuild.make_artboard(b1, (0, 0, 6, 7))
+        docbuild.make_artboard(b2, (6, 0, 8, 8))
+        buf = io.BytesIO()
+        A.save(buf)
+        A = PSDImage.open(io.BytesIO(buf.getvalue()))
+        w = World(recipe)
+        w.reg(A)
+        w.reg_tree(A)
+        w.reg(_px(A, mode, "fresh", 3, 0))
+        w.reg(Group.new("fg"))
     else:
         raise ValueError(shape)
     for d in w.docs():           # building is not part of the history: records rebuilt, flag reset
@@ -248,6 +293,21 @@ def node_str(i, f):
                      "_" if cache is None else _box(cache), "1" if dirty else "0"])
 
 
+def mask_cache(node: str) -> str:
+    f = node.split(" ")
+    f[7] = "*"
+    return " ".join(f)
+
+
+def same_node(real: str, model) -> bool:
+    if model is None:
+        return False
+    if real == model:
+        return True
+    a, b = real.split(" "), model.split(" ")
+    return len(a) == len(b) and all(x == y or x == "*" for x, y in zip(a, b))
+
+
 def dump(w: World) -> dict:
     """id -> node string, for every live (non placeholder) id"""
     return {i: node_str(i, node_fields(w, i)) for i in w.ids()}
@@ -286,6 +346,13 @@ def op_str(op) -> str:
             return _nats(list(v))
         return str(v)
     return " ".join(tok(v) for v in op)
+
+
+def model_op(op):
+    """the operation the model is given for `op`"""
+    if op[0] in ATTR_OPS:
+        return ("attr", op[1])
+    return op
 
 
 def _slice(a, b):
@@ -349,6 +416,12 @@ def apply_real(w: World, op):
             O(op[1]).left = op[2]; return "none"
         if name == "top":
             O(op[1]).top = op[2]; return "none"
+        if name == "rename":
+            O(op[1]).name = O(op[2]).name; return "none"      # x takes the name of y
+        if name == "clip":
+            O(op[1]).clipping_layer = op[2]; return "none"
+        if name == "opacity":
+            O(op[1]).opacity = op[2]; return "none"
         if name == "obs":
             return observe_real(w, op[1:])
         raise core.Infra("unknown op %r" % (op,))
@@ -399,48 +472,83 @@ def observe_real(w: World, o):
 
 
 # opaque read-only calls (not in the model): the caches they fill are reported as a `touch`
-OPAQUE = ("composite", "numpy", "topil", "find", "iterate", "pretty", "layer_composite", "mask_effects")
+OPAQUE = ("composite", "numpy", "topil", "find", "iterate", "pretty", "layer_composite", "mask_effects",
+          "save", "clip_layers")
 
 
-def opaque_observe(w: World, kind: str, x: int):
-    """run an opaque read-only call on object x; returns (answer summary, touch op or None)"""
-    before = {i: getattr(w.objs[i], "_bbox", None) for i in w.conts()}
+def _digest(b):
+    return "%d:%s" % (len(b), hashlib.sha1(bytes(b)).hexdigest()[:20])
+
+
+def opaque_answer(w: World, kind: str, x: int):
+    """the answer of one opaque read-only call on object x (exceptions are values)"""
     o = w.objs[x]
     try:
         if kind == "composite":
             r = o.composite()
-            ans = None if r is None else (r.mode, r.size, r.tobytes().hex()[:64])
-        elif kind == "layer_composite":
+            return None if r is None else (r.mode, r.size, _digest(r.tobytes()))
+        if kind == "layer_composite":
             r = o.composite(force=True) if isinstance(o, PSDImage) else o.composite()
-            ans = None if r is None else (r.mode, r.size, r.tobytes().hex()[:64])
-        elif kind == "numpy":
+            return None if r is None else (r.mode, r.size, _digest(r.tobytes()))
+        if kind == "numpy":
             r = o.numpy()
-            ans = None if r is None else (r.shape, r.tobytes().hex()[:64])
-        elif kind == "topil":
+            return None if r is None else (tuple(r.shape), _digest(r.tobytes()))
+        if kind == "topil":
             r = o.topil()
-            ans = None if r is None else (r.mode, r.size, r.tobytes().hex()[:64])
-        elif kind == "find":
-            names = sorted({l.name for l in o.descendants()}) if isinstance(o, GroupMixin) else []
-            ans = [(n, w.idof(o.find(n)), [w.idof(l) for l in o.findall(n)]) for n in names]
-        elif kind == "iterate":
-            ans = [w.idof(l) for l in o] if isinstance(o, GroupMixin) else None
-        elif kind == "pretty":
-            ans = repr(o)
-        elif kind == "mask_effects":
-            ans = (o.has_mask(), o.mask is None, o.has_effects(), len(list(o.effects)),
-                   o.has_vector_mask(), o.has_clip_layers()) if isinstance(o, Layer) else None
-        else:
-            raise core.Infra(kind)
+            return None if r is None else (r.mode, r.size, _digest(r.tobytes()))
+        if kind == "save":                 # export to a throw-away buffer
+            if not isinstance(o, PSDImage):
+                return None
+            buf = io.BytesIO()
+            o.save(buf)
+            return _digest(buf.getvalue())
+        if kind == "find":
+            if not isinstance(o, GroupMixin):
+                return None
+            names = sorted({l.name for l in walk_layers(o)}) + ["no such layer"]
+            return [(n, w.idof(o.find(n)), [w.idof(l) for l in o.findall(n)]) for n in names]
+        if kind == "iterate":
+            return [w.idof(l) for l in o] if isinstance(o, GroupMixin) else None
+        if kind == "pretty":
+            return repr(o)
+        if kind == "mask_effects":
+            return (o.has_mask(), o.mask is None, o.has_effects(), len(list(o.effects)),
+                    o.has_vector_mask()) if isinstance(o, Layer) else None
+        if kind == "clip_layers":
+            return ([w.idof(l) for l in o.clip_layers], o.has_clip_layers(), bool(o.clipping_layer)) \
+                if isinstance(o, Layer) else None
+        raise core.Infra(kind)
     except core.Infra:
         raise
     except RecursionError:
-        ans = "err:RecursionError"
+        return "err:RecursionError"
     except Exception as e:  # noqa
-        ans = "err:" + err_class(e)
+        return "err:" + err_class(e)
+
+
+def walk_layers(g):
+    """every layer below g, depth first, following `_layers` only (cycle safe)"""
+    seen, todo = set(), list(reversed(g._layers))
+    while todo:
+        x = todo.pop()
+        if id(x) in seen or not isinstance(x, Layer):
+            continue
+        seen.add(id(x))
+        yield x
+        if isinstance(x, GroupMixin):
+            todo += list(reversed(x._layers))
+
+
+def opaque_observe(w: World, kind: str, x: int):
+    """run an opaque read-only call on object x TWICE in a row; returns (answer, touch op or None,
+    answer of the second call)"""
+    before = {i: getattr(w.objs[i], "_bbox", None) for i in w.conts()}
+    ans = opaque_answer(w, kind, x)
+    again = opaque_answer(w, kind, x)
     # the order in which the compositor read the boxes is not known: a cache filled while another
     # one was still empty may only be read after it, so replay in an order that reproduces the values
     touched = [i for i in w.conts() if before[i] is None and getattr(w.objs[i], "_bbox", None) is not None]
-    return ans, (("obs", "touch", tuple(touched)) if touched else None)
+    return ans, (("obs", "touch", tuple(touched)) if touched else None), again
 
 
 # ------------------------------------------------------------------------------------------
@@ -582,7 +690,7 @@ class Shadow:
                 self.n += 1
                 self.kind[new] = "l"
                 return ("ok", "id:%d" % new)
-            if n in ("vis", "left", "top", "obs"):
+            if n in ("vis", "left", "top", "obs", "opaque") + ATTR_OPS:
                 return ("ok", None)
         except IndexError:
             return ("err", "IndexError")
@@ -658,20 +766,67 @@ def check_invariant(w: World):
         except RecursionError:
             bad.append(("descendants-recursion", str(c)))
             continue
+        except Exception as e:  # noqa
+            bad.append(("descendants-raises", "%d: descendants() raises %s" % (c, err_class(e))))
+            continue
         if [id(x) for x in ds] != [id(x) for x in reach]:
-            tag = "descendants-multiplicity" if len(ds) != len(reach) or len({id(x) for x in ds}) != len(ds) \
-                else "descendants-order"
+            if len(ds) != len(reach) or len({id(x) for x in ds}) != len(ds):
+                twice = [x for k, x in enumerate(ds) if any(x is y for y in ds[:k])]
+                only_clip = bool(twice) and {id(x) for x in ds} == {id(x) for x in reach} and all(
+                    isinstance(x, Layer) and x.clipping_layer for x in twice)
+                tag = "clip-layer-yielded-twice" if only_clip else "descendants-multiplicity"
+            else:
+                tag = "descendants-order"
             bad.append((tag, "%d: descendants() gives %s, the lists contain %s"
                         % (c, [w.idof(x) for x in ds], [w.idof(x) for x in reach])))
+        # name search against the independent walk: every name in use (shared names included) and one
+        # that no layer has
         names = {}
         for x in reach:
-            names.setdefault(x.name, []).append(x)
+            try:
+                names.setdefault(x.name, []).append(x)
+            except Exception:  # noqa
+                pass
+        names.setdefault("no such layer", [])
         for nm, xs in names.items():
-            fa = list(C.findall(nm))
-            if [id(x) for x in fa] != [id(x) for x in xs] or C.find(nm) is not xs[0]:
-                bad.append(("find-multiplicity", "%d: findall(%r) gives %s, expected %s"
-                            % (c, nm, [w.idof(x) for x in fa], [w.idof(x) for x in xs])))
+            try:
+                fa = list(C.findall(nm))
+                f1 = C.find(nm)
+            except RecursionError:
+                bad.append(("find-recursion", "%d: findall(%r)" % (c, nm)))
+                continue
+            except Exception as e:  # noqa
+                bad.append(("find-raises", "%d: findall(%r) / find raises %s" % (c, nm, err_class(e))))
+                continue
+            want1 = xs[0] if xs else None
+            if [id(x) for x in fa] != [id(x) for x in xs] or f1 is not want1:
+                bad.append((find_feature(C, fa, xs, f1, nm),
+                            "%d: findall(%r) gives %s and find %s, the lists contain %s"
+                            % (c, nm, [w.idof(x) for x in fa], w.idof(f1), [w.idof(x) for x in xs])))
     return bad
+
+
+def find_feature(C, found, expected, first, name):
+    """which way a name search differs from the independent walk (part of the signature)"""
+    fid, eid = [id(x) for x in found], [id(x) for x in expected]
+    if len(set(fid)) != len(fid):
+        return "find-multiplicity"
+    missing = [x for x in expected if id(x) not in set(fid)]
+    if set(fid) - set(eid):
+        return "find-reports-other-layer"
+    if missing:
+        def below_namesake(x):
+            p, n = x._parent, 0
+            while p is not None and p is not C and n < 1000:
+                if isinstance(p, Layer) and p.name == name:
+                    return True
+                p, n = getattr(p, "_parent", None), n + 1
+            return False
+        return "find-misses-layer-below-same-named-group" if all(below_namesake(x) for x in missing) \
+            else "find-misses-layer"
+    if fid != eid:
+        return "find-order"
+    return "find-not-first"
 
 
 # ------------------------------------------------------------------------------------------
@@ -737,7 +892,12 @@ class Trace:
 
     def __init__(self):
         self.init = ""
-        self.ops = []            # ops as executed (opaque observations replaced by their touch)
+        self.ops = []            # ops as executed on the real code (("opaque", kind, id) included)
+        self.mops = []           # the steps given to the model (opaque -> touch, attribute setters -> attr, a pixel
+                                 # conversion that rendered a layer -> the operation, then a touch of the boxes it cached)
+        self.mouts = []          # real outputs / dumps, one per model step
+        self.mdumps = []
+        self.msrc = []           # model step -> index in `ops`
         self.outs = []           # real outputs
         self.dumps = []          # real dumps after each op
         self.problems = []       # (property, signature, what, step, detail)
@@ -761,8 +921,9 @@ def first_inserted(op):
 
 
 def run_history(recipe, ops, check_inv=True, check_fresh=True, check_shadow=True, stop_on_problem=True) -> Trace:
-    """ops may contain ("opaque", kind, id) items (C14): they are executed and replaced by the
-    `touch` observation describing the caches they filled."""
+    """ops may contain ("opaque", kind, id) items (C14): they are executed (twice in a row: the same
+    read-only call must give the same answer) and given to the model as the `touch` observation describing
+    the caches they filled."""
     w = build(recipe)
     t = Trace()
     t.world = w
@@ -770,25 +931,69 @@ def run_history(recipe, ops, check_inv=True, check_fresh=True, check_shadow=True
     sh = Shadow(w) if check_shadow else None
     for k, op in enumerate(ops):
         if op[0] == "opaque":
-            if op[2] >= len(w.objs) or w.objs[op[2]] is None:
+            if op[2] is None or op[2] >= len(w.objs) or w.objs[op[2]] is None or op[1] not in OPAQUE:
                 continue
-            ans, touch = opaque_observe(w, op[1], op[2])
+            ans, touch, again = opaque_observe(w, op[1], op[2])
             t.opaque_answers.append((op[1], op[2], ans))
-            if touch is None:
-                continue
-            # executed already; for the model it is a touch
-            t.ops.append(touch)
+            # executed already; for the model it is a touch (possibly of nothing)
+            t.ops.append(op)
             t.outs.append("none")
             t.dumps.append(dump(w))
-            if sh:
-                sh.apply(touch)
+            t.mops.append(touch or ("obs", "touch", ()))
+            t.mouts.append("none")
+            t.mdumps.append(t.dumps[-1])
+            t.msrc.append(len(t.ops) - 1)
+            step_problems = []
+            if again != ans:
+                step_problems.append(("C14", "C14/impure/%s-twice-differs" % op[1],
+                                      "%s of object %d called twice in a row answers %s, then %s"
+                                      % (op[1], op[2], _shorten(ans), _shorten(again))))
+            if check_fresh:
+                for c, cached, fresh, att in stale_caches(w):
+                    sig = ("C14/bbox-stale-after/%s" % op[1]) if att else "C14/bbox-stale/detached-node-with-stale-parent"
+                    step_problems.append(("C14", sig, "after %s node %d caches %s, a fresh computation gives %s"
+                                          % (op_str(op), c, cached, fresh)))
+            if check_inv:
+                for tag, detail in check_invariant(w):
+                    step_problems.append(("C10", sig_invariant(tag, op, w, {}), detail))
+            for prop, sig, what in step_problems:
+                t.problems.append((prop, sig, what, len(t.ops) - 1))
+            if step_problems and stop_on_problem:
+                t.stopped = len(t.ops) - 1
+                break
             continue
         listed_before = w.listed()
         before = structure(w)
+        cache_before = {c: getattr(w.objs[c], "_bbox", None) for c in w.conts()}
         out = apply_real(w, op)
         t.ops.append(op)
         t.outs.append(out)
         t.dumps.append(dump(w))
+        # cross-document adoption converts pixel layers by rendering them (PixelLayer._convert, opaque for the
+        # model): the boxes that rendering cached are given to the model as a `touch` after the operation
+        filled = []
+        if not out.startswith("err:") and op[0] not in ("obs",) + ATTR_OPS:
+            now = structure(w)
+            adopted = [i for i, v in now.items() if i in before and before[i][2] is not None and v[2] != before[i][2]
+                       and isinstance(w.objs[i], PixelLayer)]
+            if adopted:
+                # (a box that was cached before may have been dropped and cached again while rendering: every cached
+                # box is touched - a no-op for the model where it holds one - and compared after the touch)
+                filled = [c for c in w.conts() if getattr(w.objs[c], "_bbox", None) is not None]
+        t.mops.append(model_op(op))
+        t.mouts.append(out)
+        t.msrc.append(len(t.ops) - 1)
+        if filled:
+            d0 = dict(t.dumps[-1])
+            for c in filled:
+                d0[c] = mask_cache(d0[c])      # not compared before the touch
+            t.mdumps.append(d0)
+            t.mops.append(("obs", "touch", tuple(filled)))
+            t.mouts.append("none")
+            t.mdumps.append(t.dumps[-1])
+            t.msrc.append(len(t.ops) - 1)
+        else:
+            t.mdumps.append(t.dumps[-1])
         step_problems = []
         root = None     # a known mechanism that explains every problem of this step
         if op[0] in INSERTING and already_listed(op, listed_before):
@@ -831,12 +1036,17 @@ def run_history(recipe, ops, check_inv=True, check_fresh=True, check_shadow=True
     return t
 
 
+def _shorten(v, n=160):
+    r = repr(v)
+    return r if len(r) <= n else r[:n] + "..."
+
+
 def compare_shadow(w, sh, op, out, r, listed_before):
     """C09: the tree equals the nested lists after the same operation."""
     probs = []
     n = op[0]
     real_lists = {c: [w.idof(x) for x in w.objs[c]._layers] for c in w.conts()}
-    if n in ("obs", "vis", "left", "top"):
+    if n in ("obs", "vis", "left", "top", "opaque") + ATTR_OPS:
         r = ("ok", None)
         out = "none"
     if r[0] == "refuse":
@@ -878,15 +1088,17 @@ def already_listed(op, listed_before):
 
 def sig_invariant(tag, op, w, listed_before):
     n = op[0]
-    if n in INSERTING and already_listed(op, listed_before) and tag in (
-            "listed-twice", "parent-pointer", "psd-pointer", "descendants-multiplicity", "find-multiplicity"):
+    if n in INSERTING and already_listed(op, listed_before) and (tag in (
+            "listed-twice", "parent-pointer", "psd-pointer", "descendants-multiplicity", "clip-layer-yielded-twice")
+            or tag.startswith("find-")):
         return "C10/%s/already-listed" % n
     if tag == "cycle" and n in INSERTING and op[1] in first_inserted(op):
         return "C10/%s/item-is-container" % n
-    if tag in ("descendants-multiplicity", "find-multiplicity"):
-        clip = any(getattr(w.objs[i], "_clip_layers", None) for i in w.layers())
-        return "C10/descendants/%s" % ("clip-layer-yielded-twice" if clip else tag)
-    return "C10/%s/%s" % (n, tag)
+    if tag in ("descendants-multiplicity", "clip-layer-yielded-twice", "descendants-order", "descendants-raises"):
+        return "C10/descendants/%s" % tag
+    if tag.startswith("find-"):
+        return "C10/find/%s" % tag[5:]
+    return "C10/%s/%s" % (n if n != "opaque" else op[1], tag)
 
 
 def sig_refused(op, out, w, listed_before):
@@ -917,6 +1129,8 @@ def candidate_ops(w: World, level=1):
     for g in C:
         for x in args:
             ops.append(("append", g, x))
+        for d in w.docs():
+            ops.append(("append", g, d))          # a document is a container, not a layer
         if len(args) >= 2:
             ops.append(("extend", g, (args[0], args[1])))
         if g in groups:
@@ -950,12 +1164,23 @@ def candidate_ops(w: World, level=1):
         ops.append(("grouplayers", (listed[0], listed[1]), C[0]))
         if groups:
             ops.append(("grouplayers", (groups[0], listed[0]), groups[0]))
+    # names shared by a group and the layers below / beside it (name search)
+    for g in groups[:2]:
+        below = [w.idof(x) for x in w.objs[g]._layers][:1]
+        for x in list(dict.fromkeys(below + listed[:1])):
+            if x != g:
+                ops.append(("rename", x, g))
+                ops.append(("rename", g, x))
     if level >= 2:
         ops.append(("newlayer", w.docs()[0], (1, 1, 3, 3)))
         for x in X[:3]:
             ops.append(("vis", x, False))
         for x in w.plain_leaves()[:2]:
             ops.append(("left", x, 3))
+        for x in listed[:2]:
+            ops.append(("clip", x, True))
+        for x in listed[:1]:
+            ops.append(("opacity", x, 90))
     return list(dict.fromkeys(ops))
 
 
@@ -967,7 +1192,9 @@ def random_op(w: World, rng, p_unguarded=0.12, p_attr=0.15, p_obs=0.0):
     def arg():
         if det and rng.random() > p_unguarded:
             return rng.choice(det)
-        return rng.choice(X + ([BOGUS] if rng.random() < 0.02 else []) + (w.docs() if rng.random() < 0.02 else []))
+        if rng.random() < 0.04:
+            return rng.choice(w.docs() + [BOGUS])
+        return rng.choice(X)
 
     def idx():
         return rng.choice([0, 0, 1, 2, -1, -1, -2, 4, -5, 9])
@@ -984,12 +1211,22 @@ def random_op(w: World, rng, p_unguarded=0.12, p_attr=0.15, p_obs=0.0):
     r = rng.random()
     if r < p_attr:
         k = rng.random()
-        if k < 0.6:
+        if k < 0.35:
             return ("vis", rng.choice(X), rng.random() < 0.5)
-        pl = w.plain_leaves()
-        if pl:
-            return (rng.choice(["left", "top"]), rng.choice(pl), rng.choice([-2, 0, 1, 3, 6]))
-        return ("vis", rng.choice(X), rng.random() < 0.5)
+        if k < 0.55:
+            pl = w.plain_leaves()
+            if pl:
+                return (rng.choice(["left", "top"]), rng.choice(pl), rng.choice([-2, 0, 1, 3, 6]))
+            return ("vis", rng.choice(X), rng.random() < 0.5)
+        if k < 0.8:
+            # x takes the name of y; half of the time y is a container above x or a layer below x
+            x = rng.choice(X)
+            rel = related(w, x)
+            y = rng.choice(rel) if rel and rng.random() < 0.5 else rng.choice(X)
+            return ("rename", x, y)
+        if k < 0.92:
+            return ("clip", rng.choice(X), rng.random() < 0.7)
+        return ("opacity", rng.choice(X), rng.choice([0, 90, 255]))
     kinds = ["append", "append", "extend", "insert", "insert", "remove", "pop", "clear", "setitem", "setslice",
              "delitem", "delslice", "delete", "move", "move", "move", "up", "down", "newgroup", "grouplayers",
              "newlayer", "newlayer"]
@@ -1041,6 +1278,19 @@ def random_op(w: World, rng, p_unguarded=0.12, p_attr=0.15, p_obs=0.0):
     raise AssertionError(k)
 
 
+def related(w: World, x: int):
+    """the layers above and below x in the tree (through the lists)"""
+    out = []
+    o = w.objs[x]
+    if isinstance(o, GroupMixin):
+        out += [w.idof(l) for l in walk_layers(o)]
+    p, n = getattr(o, "_parent", None), 0
+    while isinstance(p, Layer) and n < 50:
+        out.append(w.idof(p))
+        p, n = p._parent, n + 1
+    return [i for i in dict.fromkeys(out) if i != x and i != BOGUS and i is not None]
+
+
 def random_walk(recipe, rng, length, **kw):
     """Generate a history against a scratch world (ops depend on the evolving state)."""
     w = build(recipe)
@@ -1069,27 +1319,28 @@ def random_walk(recipe, rng, length, **kw):
 # ------------------------------------------------------------------------------------------
 def compare_with_model(ctx, traces, cfg="current", what="tree"):
     """traces: list of Trace. Reports disagreements through ctx.disagree; returns their number."""
-    cases = [(t.init, t.ops) for t in traces]
+    cases = [(t.init, t.mops) for t in traces]
     n = 0
     for t, steps in zip(traces, model_runs(ctx, cases, cfg)):
         for k, (out, nodes) in enumerate(steps):
-            if t.out_of_model is not None and k >= t.out_of_model:
+            src = t.msrc[k]
+            if t.out_of_model is not None and src >= t.out_of_model:
                 break
-            real = t.dumps[k]
+            real = t.mdumps[k]
             ctx.corr_cases += 1
             bad = None
-            if out != t.outs[k]:
-                bad = ("output", t.outs[k], out)
+            if out != t.mouts[k]:
+                bad = ("output", t.mouts[k], out)
             else:
                 for i, s in real.items():
-                    if nodes.get(i) != s:
+                    if not same_node(s, nodes.get(i)):
                         bad = ("node %d" % i, s, nodes.get(i))
                         break
             if bad:
                 n += 1
-                ctx.disagree("%s: model and code differ after step %d (%s)" % (what, k, bad[0]),
-                             {"recipe": list(t.world.recipe), "ops": [list(map(_j, o)) for o in t.ops[:k + 1]],
-                              "code": bad[1], "model": bad[2]})
+                ctx.disagree("%s: model and code differ after step %d (%s)" % (what, src, bad[0]),
+                             {"recipe": list(t.world.recipe), "ops": [list(map(_j, o)) for o in t.ops[:src + 1]],
+                              "model_ops": [op_str(o) for o in t.mops[:k + 1]][-6:], "code": bad[1], "model": bad[2]})
                 break
     return n
 
@@ -1149,15 +1400,16 @@ def strip_payload(t):
 # exploration engine shared by the three checks
 # ------------------------------------------------------------------------------------------
 SMALL_TREES = [("small", "L", 8), ("flat", "RGB", 8), ("nest", "RGB", 8)]
+NAMED_TREES = [("dup", "RGB", 8), ("board", "RGB", 8), ("board", "L", 16)]
 MATRIX = [(m, d) for m in ("L", "RGB", "CMYK") for d in (8, 16, 32)]
-FIXTURES = ["clipping-mask.psd", "group.psd", "16bit5x5.psd", "32bit5x5.psd",
+FIXTURES = ["clipping-mask.psd", "group.psd", "artboard.psd", "16bit5x5.psd", "32bit5x5.psd",
             "layers-minimal/gradient-fill.psd", "layers-minimal/pattern-fill.psd", "layers-minimal/pixel-layer.psd",
             "layers-minimal/shape-layer.psd", "layers-minimal/smartobject-layer.psd",
             "layers-minimal/solid-color-fill.psd", "layers-minimal/type-layer.psd"]
 
 
 def walk_recipes():
-    r = list(SMALL_TREES)
+    r = list(SMALL_TREES) + list(NAMED_TREES)
     r += [("nest", m, d) for m, d in MATRIX]
     r += [("two", m, d, m2) for (m, d), m2 in zip(MATRIX, ["RGB", "L", "RGB", "CMYK", "L", "RGB", "L", "RGB", "CMYK"])]
     r += [("fixture", f) for f in FIXTURES]
@@ -1226,13 +1478,17 @@ def report(ctx, traces, props, shrink=True, how="search"):
                 continue
             ops = t.ops[:step + 1]
             recipe = t.world.recipe
-            if shrink and len(ops) > 1 and not any(o[0] == "obs" and o[1] == "touch" for o in ops):
+            if shrink and len(ops) > 1:
                 def test(sub, recipe=recipe, sig=sig):
                     tt = run_history(recipe, list(sub))
                     return any(p[1] == sig for p in tt.problems)
                 try:
                     ops = core.ddmin(ops, test)
-                except Exception:
+                    again = [p[2] for p in run_history(recipe, list(ops)).problems if p[1] == sig]
+                    what = again[0] if again else what      # the description of the shrunk history
+                except core.Infra:
+                    raise
+                except Exception:  # noqa
                     pass
             seen[sig] = {"count": 1}
             ctx.fail(sig, what, {"recipe": list(recipe), "ops": ops_to_json(ops)}, observed=what,
@@ -1248,7 +1504,7 @@ def coverage(ctx, traces):
     for t in traces:
         ctx.count(("h", t.world.recipe, tuple(t.ops)), nontrivial=len(t.ops) >= 1)
         for op, out in zip(t.ops, t.outs):
-            ctx.hist("op", op[0] if op[0] != "obs" else "obs." + op[1])
+            ctx.hist("op", op[0] if op[0] not in ("obs", "opaque") else op[0] + "." + op[1])
             ctx.hist("outcome", out.split(":")[1] if out.startswith("err:") else "ok")
         ctx.hist("history_length", min(len(t.ops), 60) // 5 * 5)
         ctx.hist("recipe", "/".join(str(x) for x in t.world.recipe[:3]))
@@ -1279,14 +1535,18 @@ ASSUME = [
     "trees stay far below the interpreter's recursion limit (model parameter `limit`; RecursionError paths of the "
     "model are not exercised by the correspondence)",
     "pixel conversion on cross-document adoption (`PixelLayer._convert`) is not modelled; a conversion that raises is "
-    "reported by the search (known finding) and the history is not compared with the model beyond it",
+    "reported by the search (known finding) and the history is not compared with the model beyond it; the boxes a "
+    "conversion caches while it renders the layer (clipping groups) are given to the model as a `touch` after the "
+    "operation and compared then",
     "Shape / fill layers are leaves with a constant box; extended slices (step != 1) are not modelled",
 ]
 MODEL_COVERAGE = {
     "operations": ["append", "extend", "insert", "remove", "pop", "clear", "__setitem__ (index, slice)",
                    "__delitem__ (index, slice)", "delete_layer", "move_to_group", "move_up", "move_down", "Group.new",
                    "Group.group_layers", "PixelLayer.frompil (allocation)", "visible / left / top setters",
+                   "name / opacity / clipping_layer setters (model operation `attr`: nothing of the modelled state changes)",
                    "bbox / size / repr / descendants / len / index / count / getitem / in / is_visible"],
-    "opaque": ["PixelLayer._convert", "_fetch_tagged_blocks", "composite / numpy / topil (their cache effects are "
-               "replayed as `touch`)", "clip_layers (not used by the repaired traversal)"],
+    "opaque": ["PixelLayer._convert", "_fetch_tagged_blocks", "composite / numpy / topil / save to a throw-away buffer / "
+               "find / iteration / clip_layers reads (their cache effects are replayed as `touch`; everything else of "
+               "the dump - lists, pointers, dirty flag - must be unchanged)", "the clipping relation itself (C15)"],
 }
